@@ -1925,6 +1925,15 @@ fn history(family: &str, seed: u64, idx: usize, thorough: bool, out: &mut impl W
                             c.s.step(x);
                         }
                         c.s.trace.push(json!({"ev":"away_write","peer":x,"h":hh,"ty":ty.name()}));
+                    } else if c.rng.chance(1, 5) && c.live.len() > 2 {
+                        // ... or despawns an entity it holds
+                        let i = c.rng.below(c.live.len());
+                        let hd = c.live[i];
+                        if c.s.despawn(x, hd) {
+                            c.live.swap_remove(i);
+                            c.s.step(x);
+                            c.s.trace.push(json!({"ev":"away_despawn","peer":x,"h":hd}));
+                        }
                     } else if c.rng.chance(1, 4) && c.live.len() >= 2 {
                         // ... or re-parents an entity it holds
                         let a = *c.rng.pick(&c.live.clone());
